@@ -12,10 +12,10 @@ def main():
     if not os.path.exists(WT):
         subprocess.run('git -C /repo worktree add -q --detach %s HEAD' % WT, shell=True, check=True)
     res = json.load(open(OUT)) if os.path.exists(OUT) else {}
-    seeds = sorted(glob.glob(HERE + '/seeded/_incoming/C*/[0-9]/patch.diff')) + sorted(glob.glob(HERE + '/seeded/_negative/*.diff')) + sorted(glob.glob(HERE + '/seeded/_revert/*.diff'))
+    seeds = sorted(glob.glob(HERE + '/seeded/_incoming*/C*/[0-9]/patch.diff')) + sorted(glob.glob(HERE + '/seeded/_negative/*.diff')) + sorted(glob.glob(HERE + '/seeded/_revert/*.diff'))
     only = sys.argv[1:]
     for p in seeds:
-        key = '/'.join(p.split('/')[-3:-1]) if p.endswith('patch.diff') else os.path.basename(p)[:-5]
+        key = ('/'.join(p.split('/')[-3:-1]) + ('#2' if '_incoming2' in p else '')) if p.endswith('patch.diff') else os.path.basename(p)[:-5]
         if only and not any(o in key for o in only):
             continue
         if key in res and not only:
